@@ -285,7 +285,7 @@ MUTANTS = [
      "            radius = radius[0:idx]\n"
      "            profile = profile[0:idx]\n"),
     ('C19', 'nonfinite_not_masked_when_mask_given', 'profiles/core.py',
-     "            mask |= badmask  # all masked pixels\n",
+     "            mask = mask | badmask  # all masked pixels (input mask unchanged)\n",
      "            pass\n"),
     ('C19', 'data_profile_cached_unscaled', 'profiles/radial_profile.py',
      "        return self._data_profile[1] / self.normalization_value\n",
